@@ -244,6 +244,19 @@ pub fn run(o: &Opts) {
           let fix = if rng.chance(1, 3) { Some("X") } else { None };
           yamls.push(rule_yaml(&format!("r{}", (i * 7 + rng.below(5)) % 10), lang, &body, fix));
         }
+        // on a tree with syntax errors: a rule for the built-in ERROR kind (its id lies outside every grammar's
+        // symbol table), alone or below a composite / utility
+        if corpus::has_error(&root) && rng.chance(2, 3) {
+          let other = if ing.kinds.is_empty() { "ERROR".to_string() } else { rng.pick(&ing.kinds).clone() };
+          let body = match rng.below(4) {
+            0 => "  kind: ERROR\n".to_string(),
+            1 => format!("  any:\n    - kind: ERROR\n    - kind: {other}\n"),
+            2 => "  all:\n    - kind: ERROR\n    - regex: '.'\n".to_string(),
+            _ => "  matches: err\nutils:\n  err:\n    kind: ERROR\n".to_string(),
+          };
+          yamls.push(rule_yaml("syntax-error", lang, &body, None));
+          out.count("scan:rule-sets-with-ERROR-kind");
+        }
         // distinct ids
         let mut seen = std::collections::HashSet::new();
         yamls.retain(|y| seen.insert(y.lines().next().unwrap().to_string()));
